@@ -67,6 +67,10 @@ def assignments(r, n):
         sp = r.sample(pool, 8)
         if len(set(sp)) == 8:
             rand.append(dict(zip(IDENTS, sp)))
+    # a keys-selector spelling that starts like a member name ("_") collides with the
+    # fixed dot-shorthand rule for names (`._` is the member "_"): overlapping, excluded
+    for lst in (singles, prefix, perms, rand):
+        lst[:] = [t for t in lst if not (t["keys"][0] == "_" or t["keys"][0].isalnum())]
     out = []
     lists = [singles, prefix, perms, rand]
     i = 0
@@ -81,7 +85,7 @@ def assignments(r, n):
 def plan(tier, seed):
     n_assign = 72 if tier == "quick" else 400
     shards = 12 if tier == "quick" else 40
-    return [{"kind": "assign", "n_assign": n_assign, "part": i, "parts": shards, "per": 12 if tier == "quick" else 20} for i in range(shards)]
+    return [{"kind": "assign", "n_assign": n_assign, "part": i, "parts": shards, "per": 40 if tier == "quick" else 40} for i in range(shards)]
 
 
 def make_env(tokens):
